@@ -13,10 +13,6 @@ NOT_APPLICABLE = {
     "C03": "equality of the patched line vector with an independent reconstruction, incl. overlapping contexts after offset "
            "placement: a relation between runtime coordinates (line, modification_offset, last_frozen_line). The only structural "
            "trait (two-phase apply) is not a necessary condition of the property. See DESIGN.md §4 C03.",
-    "C07": "functional correctness of an incremental union-find over all sequences of name pairs: the defective and a correct "
-           "version have identical structure, effects and callees and differ only in which array indices are read; needs a proof "
-           "about array contents or input enumeration (other families). The structural part around it (every related pair is "
-           "registered, dispatch uses a registered key) is checked under C06-R8. See DESIGN.md §4 C07.",
 }
 
 TECHNIQUE = {
@@ -24,6 +20,9 @@ TECHNIQUE = {
            "(Range/rev/interleave over expected line, file length, hunk length) deciding completeness and nearest-first order",
     "C04": "typestate pairing over MIR field writes (apply vs rollback), who-may-call rule on the aborting rollback API, LIFO iterator typing",
     "C05": "MIR dominance / must-pass-through ordering rules on both drivers and cmd_push (record-after-save, rollback-before-save, exit status)",
+    "C07": "shape analysis of the disjoint-set forest: every mutation of the parent vector classified as registration / link of two "
+           "roots / flattening pass, root function returns only checked roots, difference-bound proof that links keep parent <= child, "
+           "thread index a function of the root",
     "C06": "static effect and sharing analysis of the rayon closures: captured types, atomic method set, barrier dominance, FS-effect conflicts",
     "C08": "path-constant (backup mode x dry-run) reachability, sibling expression-tree agreement of the two drivers, dominance rules",
     "C09": "builder-chain typestate on OpenOptions, value provenance of the slice bounds, flag non-interference on cmd_push",
